@@ -121,6 +121,13 @@ let () = iter_lines (fun line ->
        | None -> print_endline "err"
        | Some segs -> out_opt (write_markers segs))
   | [ "emit"; "markers"; s ] -> out_opt (write_markers (segs_of s))
+  | [ "mapi"; s ] ->
+      (* the call trace harness/c16.c makes: odd lengths through jpeg_write_m_header + jpeg_write_m_byte, even ones through jpeg_write_marker *)
+      let trace = List.concat_map (fun (c, d) ->
+          if List.length d land 1 = 1 then CHeader (c, z_of_int (List.length d)) :: List.map (fun b -> CByte b) d else [CMarker (c, d)]) (segs_of s) in
+      (match mapi_run (zb 101) (zb 0) { ma_open = zb 0; ma_out = [] } trace with
+       | Some st when int_of_z st.ma_open = 0 -> print_endline (tohex st.ma_out)
+       | _ -> print_endline "err")
   | [ "emit"; "sof"; code; prec; h; w; comps ] ->
       let cs = List.map (fun it -> match List.map int_of_string (String.split_on_char '.' it) with
           | [a; b; c; d] -> { c_id = z_of_int a; c_h = z_of_int b; c_v = z_of_int c; c_tq = z_of_int d }
@@ -178,6 +185,17 @@ let () = iter_lines (fun line ->
                 print_endline ("x " ^ String.concat " | " (List.map (fun segs -> String.concat "" (List.map (fun (c, d) ->
                     Printf.sprintf " m %d %d %s ;" (int_of_z c) (zlen d) (fnv d)) segs)) outs)))
        | _ -> print_endline "err")
+  | [ "tjmb"; sm; flags; cs; dicc; hx ] ->
+      (match unhex hx with
+       | _ :: _ :: rest ->
+           let fl = List.init (String.length flags) (fun i -> flags.[i] = '1') in
+           (match tj_transform_multi_bytes (z_of_int (int_of_string sm)) fl (cspace_of_int (int_of_string cs)) (nat_of_int 100000) rest (unhex dicc) with
+            | None -> print_endline "err"
+            | Some outs -> print_endline ("b " ^ String.concat " " (List.map (function Some b -> tohex b | None -> "err") outs)))
+       | _ -> print_endline "err")
+  | [ "bufsz"; sm; cn; ts; tm; is_ ] ->
+      let zi s = z_of_int (int_of_string s) in
+      print_endline (string_of_int (int_of_z (tj_bufsize_icc (zi sm) (cn = "1") (zi ts) (zi tm) (zi is_))))
   | [ "wst"; gs; ns; what; len ] ->
       let n = int_of_string len in
       let data = List.init n (fun _ -> zb 0) in
@@ -189,16 +207,23 @@ let () = iter_lines (fun line ->
       let qf (l : z list) = fnv (List.concat_map (fun q -> let v = int_of_z q in [zb (v lsr 8); zb (v land 255)]) l) in
       let hf ((b, v) : z list * z list) = fnv (b @ v) in
       let view (sc : scan) (st : rstate) =
-        Printf.sprintf "view %s;%d;%d;%d;%d ri=%d qt=%s dc=%s ac=%s nm=%d"
+        Printf.sprintf "view %s;%d;%d;%d;%d ri=%d qt=%s dc=%s ac=%s ar=%s nm=%d"
           (String.concat "," (List.map (fun c -> Printf.sprintf "%d.%d.%d" (int_of_nat c.sc_ci) (int_of_z c.sc_dc) (int_of_z c.sc_ac)) sc.s_comps))
           (int_of_z sc.s_Ss) (int_of_z sc.s_Se) (int_of_z sc.s_Ah) (int_of_z sc.s_Al) (int_of_z st.r_h.h_restart)
-          (slot_str qf st.r_qt) (slot_str hf st.r_dc) (slot_str hf st.r_ac) (List.length st.r_saved) in
+          (slot_str qf st.r_qt) (slot_str hf st.r_dc) (slot_str hf st.r_ac)
+          (let v k = int_of_z (st.r_dac (zb k)) in
+           fnv (List.init 16 (fun k -> zb (v k land 15)) @ List.init 16 (fun k -> zb (v k lsr 4)) @ List.init 16 (fun k -> zb (v (16 + k)))))
+          (List.length st.r_saved) in
       (match read_file (cfg_of cfgs) (unhex hx) with
        | None -> print_endline "err"
        | Some (views, stf) ->
            let h = stf.r_h in
            print_endline (String.concat " | " (List.map (fun v -> view v.sv_scan v.sv_state) views)
-             ^ Printf.sprintf " | end ri=%d dens=%d.%d.%d jfif=%d adobe=%d tr=%d |" (int_of_z h.h_restart) (int_of_z h.h_unit) (int_of_z h.h_xd)
+             ^ (match stf.r_frame, sof_flags stf.r_sofcode with
+                | Some fr, Some ((p, l), a) -> Printf.sprintf " | end sof=%d%d%d.%d.%d.%d.%s" (b2i p) (b2i l) (b2i a) (int_of_z fr.f_prec) (int_of_z fr.f_width)
+                    (int_of_z fr.f_height) (String.concat "," (List.map (fun c -> Printf.sprintf "%d:%d:%d:%d" (int_of_z c.c_id) (int_of_z c.c_h) (int_of_z c.c_v) (int_of_z c.c_tq)) fr.f_comps))
+                | _ -> " | end sof=?")
+             ^ Printf.sprintf " ri=%d dens=%d.%d.%d jfif=%d adobe=%d tr=%d |" (int_of_z h.h_restart) (int_of_z h.h_unit) (int_of_z h.h_xd)
                  (int_of_z h.h_yd) (b2i h.h_saw_jfif) (b2i h.h_saw_adobe) (int_of_z h.h_transform)
              ^ String.concat "" (List.map (fun m -> Printf.sprintf " m %d %d %d %s ;" (int_of_z m.sm_code) (int_of_z m.sm_orig) (zlen m.sm_data) (fnv m.sm_data)) stf.r_saved)))
   | [ "trace"; cfgs; ms ] ->
